@@ -1607,7 +1607,11 @@ class Engine:
 
     def s_With(self, node, st, fr):
         if len(node.items) != 1:
-            raise Unsupported("multi-item with")
+            # `with a, b: body` is `with a: with b: body` (Python language reference, 8.5)
+            inner = ast.copy_location(ast.With(items=node.items[1:], body=node.body), node)
+            outer = ast.copy_location(ast.With(items=node.items[:1], body=[inner]), node)
+            yield from self.s_With(outer, st, fr)
+            return
         item = node.items[0]
         for st1, cm in self.eval(item.context_expr, st, fr):
             if isinstance(cm, Raise):
